@@ -18,6 +18,7 @@ import (
 	"github.com/criyle/go-sandbox/container"
 	"github.com/criyle/go-sandbox/runner"
 	"github.com/criyle/go-sandbox/zverif/vcore"
+	"golang.org/x/sys/unix"
 )
 
 // s1Shape is the swarm shape of one S1 run (first draws of the run).
@@ -230,6 +231,9 @@ func genOpenItem(c *vcore.Ctx, i int) container.OpenCmd {
 		o.Path = dir // a directory
 	case 3:
 		o.Path = filepath.Join(dir, strings.Repeat("n", 300)) // ENAMETOOLONG
+	default:
+		// asking for the parent directories to be made changes nothing about what may be at the path itself
+		o.MkdirAll = src.Bool(1, 3, "mkdirall_plain")
 	}
 	return o
 }
@@ -424,6 +428,22 @@ func (s *s1Sim) call(ctx context.Context, op *s1op, out *s1res) {
 	}
 }
 
+// forceFinalizers runs a collection and gives the finalizer goroutine (which lives outside the
+// bubble) a few milliseconds of real time; package time is fake in here, the raw clock is not.
+func forceFinalizers() {
+	runtime.GC()
+	runtime.GC()
+	var t0, t unix.Timespec
+	unix.ClockGettime(unix.CLOCK_MONOTONIC, &t0)
+	for {
+		runtime.Gosched()
+		unix.ClockGettime(unix.CLOCK_MONOTONIC, &t)
+		if (t.Sec-t0.Sec)*1e9+(t.Nsec-t0.Nsec) > 3e6 {
+			return
+		}
+	}
+}
+
 type s1event struct {
 	name   string
 	weight int
@@ -435,6 +455,7 @@ func (s *s1Sim) drive(op *s1op, done chan struct{}, cancel context.CancelFunc, a
 	c, w := s.c, s.w
 	cancelled := false
 	destroyed := false
+	gcDone := op.kind != "open" || !c.Src.Bool(1, 5, "maygc") // (a forced collection costs milliseconds of real time)
 	ticks := 0
 	for step := 0; step < 400; step++ {
 		vcore.Heartbeat()
@@ -476,6 +497,15 @@ func (s *s1Sim) drive(op *s1op, done chan struct{}, cancel context.CancelFunc, a
 			if op.plan != planRunForever {
 				evs = append(evs, s1event{"child_exit", 3, func() { w.childExit(ch) }})
 			}
+		}
+		if op.kind == "open" && !gcDone && (nh > 0 || nc > 0) {
+			// a garbage collection (with its finalizers) of the process serving the batch, while the
+			// batch is being handled: whatever must stay open has to be referenced, not just numbered
+			evs = append(evs, s1event{"gc", 2, func() {
+				gcDone = true
+				c.Fault("gc_with_finalizers_during_batch")
+				forceFinalizers()
+			}})
 		}
 		if allowCancel && !cancelled {
 			evs = append(evs, s1event{"cancel", 1, func() { cancelled = true; c.Fault("cancel"); cancel() }})
@@ -674,6 +704,16 @@ func (s *s1Sim) run() {
 				op.pre = append(op.pre, st)
 			}
 		}
+		if i > 0 && c.Src.Bool(1, 8, "idle_before") {
+			// the caller does nothing for a while: deadlines armed by an earlier call and left behind
+			// expire now (simulated time, costs nothing)
+			d := []time.Duration{3500 * time.Millisecond, 10 * time.Second, 2 * time.Minute}[c.Src.Int(3, "idle_for")]
+			c.Logf("    idle for %v", d)
+			c.Event("idle")
+			c.Fault("idle_period_between_calls")
+			time.Sleep(d)
+			s.c.SimTime += d
+		}
 		c.Logf("op %d: %s", i, op)
 		synctest.Wait()
 		w.mu.Lock()
@@ -687,7 +727,7 @@ func (s *s1Sim) run() {
 			s.fail("stray_reply", culprit.site(), "%d container->host message(s) pending when %s starts: a reply nobody waited for (left by %s)", stray, op, culprit)
 			break
 		}
-		ctx, cancel := context.WithCancel(context.Background())
+		ctx, cancel := newEndableCtx(sh.cancels && c.Src.Bool(1, 3, "ends_as_deadline"))
 		allowCancel := sh.cancels && !epilogue && op.kind == "execve" && c.Src.Bool(1, 2, "maycancel")
 		if op.kind == "execve" && op.stage == "run" && allowCancel && c.Src.Bool(1, 3, "forever") {
 			op.plan = planRunForever
